@@ -159,6 +159,11 @@ func vfRunC12(ctx *vfCtx, c vfCaseC12) {
 					expectClosed(err)
 					return
 				}
+				if n < 0 || n > int64(call.N) {
+					// whatever happened, a count is a number of bytes of this call (seed C12-g: a failed
+					// concurrent Write returned a negative count and moved the offset backwards)
+					ctx.Failf(key+"/count-out-of-range", "%s returned n=%d (err %v) for %d bytes", desc, n, err, call.N)
+				}
 				if off+int64(call.N) > vfC12ModelMax || off > vfC12ModelMax {
 					// beyond what the model peer stores: it fails the first chunk
 					if err == nil && call.N > 0 {
